@@ -282,7 +282,7 @@ impl<'r> Gen<'r> {
                     self.collect_places(p, want, depth - 1, out);
                 }
             }
-            Ty::Array(et, n) => {
+            Ty::Array(et, n) if n > 0 => {
                 // one constant in-range index (more would blow up the candidate list)
                 let k = self.rng.usize_below(n);
                 let p = e(ExprKind::Index(Box::new(base.clone()), Box::new(lit_int(ints::USIZE, k as i128))), (*et).clone());
@@ -321,7 +321,8 @@ impl<'r> Gen<'r> {
             Ty::Int(t) => self.gen_int_lit(*t),
             Ty::Array(et, n) => {
                 let small = self.over_budget();
-                if !et.is_unit() && (self.rng.chance(1, 4) || small) {
+                // (`[]` cannot be written in programs: an empty array is always a repeat literal)
+                if *n == 0 || !et.is_unit() && (self.rng.chance(1, 4) || small) {
                     self.note("array-repeat");
                     let x = self.gen_expr(et, depth.saturating_sub(1));
                     return e(ExprKind::ArrayRepeat(Box::new(x), *n), ty.clone());
@@ -411,6 +412,10 @@ impl<'r> Gen<'r> {
 
     /// An index expression for an array of length `len`.
     fn gen_index(&mut self, len: usize, depth: u32) -> Expr {
+        if len == 0 {
+            // every index into an empty array is out of range
+            return lit_int(ints::USIZE, self.rng.below(2) as i128);
+        }
         let panic_heavy = self.cfg.profile == Profile::PanicHeavy;
         let w_dyn = if panic_heavy { 6 } else { 3 };
         match self.rng.weighted(&[6, w_dyn, 1]) {
@@ -1512,9 +1517,16 @@ impl<'r> Gen<'r> {
         self.declare("a", ta.clone(), false);
         self.declare("b", tb.clone(), false);
         let mut stmts = vec![];
-        // accumulators
+        // accumulators (one of them sometimes is a `mut` parameter of main: always when both arrays
+        // are empty, main needs some input bits)
         let n_acc = 1 + self.rng.usize_below(3);
         let mut accs = vec![];
+        let mut_param: Option<Ty> = if n + m == 0 || self.rng.chance(1, 2) { Some(Ty::Int(self.gen_int_ty())) } else { None };
+        if let Some(ty) = &mut_param {
+            self.note("for-join-with-mut-parameter");
+            self.declare("accp", ty.clone(), true);
+            accs.push(("accp".to_string(), ty.clone()));
+        }
         for i in 0..n_acc {
             let ty = if i == 0 { Ty::Int(self.gen_int_ty()) } else { self.gen_ty(1) };
             let name = format!("acc{i}");
@@ -1571,7 +1583,7 @@ impl<'r> Gen<'r> {
         let mut head_a = e(ExprKind::Var("a".into()), ta.clone());
         let mut head_b = e(ExprKind::Var("b".into()), tb.clone());
         if let Ty::Int(kt) = &key {
-            if self.rng.chance(1, 3) {
+            if n > 0 && m > 0 && self.rng.chance(1, 3) {
                 self.note("for-join-with-failing-head");
                 let first_key = |arr: &str, aty: &Ty, ety: &Ty| -> Expr {
                     let el = e(ExprKind::Index(Box::new(e(ExprKind::Var(arr.into()), aty.clone())), Box::new(lit_int(ints::USIZE, 0))), ety.clone());
@@ -1600,7 +1612,13 @@ impl<'r> Gen<'r> {
         let main = FnDef {
             name: "main".into(),
             is_pub: true,
-            params: vec![Param { name: "a".into(), ty: ta, mutable: false }, Param { name: "b".into(), ty: tb, mutable: false }],
+            params: {
+                let mut ps = vec![Param { name: "a".into(), ty: ta, mutable: false }, Param { name: "b".into(), ty: tb, mutable: false }];
+                if let Some(ty) = mut_param {
+                    ps.push(Param { name: "accp".into(), ty, mutable: true });
+                }
+                ps
+            },
             ret,
             body: Block { stmts, tail: Some(Box::new(tail)) },
         };
